@@ -33,13 +33,20 @@ pub(crate) struct CustomTypeParser<'result> {
     /// When we encounter a `FrozenType(...)`, this field is set to true for the duration
     /// of parsing the inner type, and then set back to false.
     frozen_context: bool,
+    /// How many types enclose the one being parsed. Parsing recurses once per nesting level,
+    /// so the depth is bounded, lest a malformed type name overflow the stack.
+    depth: usize,
 }
+
+/// How deeply types may be nested in a custom type name received from the server.
+const MAX_CUSTOM_TYPE_NESTING_DEPTH: usize = 128;
 
 impl<'result> CustomTypeParser<'result> {
     fn new(input: &'result str) -> CustomTypeParser<'result> {
         Self {
             parser: ParserState::new(input),
             frozen_context: false,
+            depth: 0,
         }
     }
 
@@ -259,6 +266,7 @@ impl<'result> CustomTypeParser<'result> {
         let mut backup = Self {
             parser: self.parser,
             frozen_context: self.frozen_context,
+            depth: self.depth,
         };
 
         // FIXME: Rewrite using std::iter::FromIterator::collect_array after it is stabilized.
@@ -366,6 +374,18 @@ impl<'result> CustomTypeParser<'result> {
     }
 
     fn do_parse(&mut self) -> Result<ColumnType<'result>, CustomTypeParseError> {
+        if self.depth > MAX_CUSTOM_TYPE_NESTING_DEPTH {
+            return Err(CustomTypeParseError::TypeNestingTooDeep(
+                MAX_CUSTOM_TYPE_NESTING_DEPTH,
+            ));
+        }
+        self.depth += 1;
+        let result = self.do_parse_nested();
+        self.depth -= 1;
+        result
+    }
+
+    fn do_parse_nested(&mut self) -> Result<ColumnType<'result>, CustomTypeParseError> {
         self.skip_blank();
 
         let mut name = self.read_next_identifier();
